@@ -82,11 +82,11 @@ Definition hints_spec (inv : bool) (ws : list N) : list N :=
   fst (hints_pure (Rk inv ws) (nblocks ws)) ++ [nblocks ws].
 
 Lemma nseq_succ m : nseq (N.of_nat (S m)) = nseq (N.of_nat m) ++ [N.of_nat m].
-Proof. unfold nseq. rewrite !Nat2N.id, seq_S, map_app. reflexivity. Qed.
+Proof. rewrite ?nseq_unfold. rewrite !Nat2N.id, seq_S, map_app. reflexivity. Qed.
 
 Lemma nseq_lt n i : In i (nseq n) -> i < n.
 Proof.
-  unfold nseq. intro H. apply in_map_iff in H. destruct H as [k [<- Hk]]. apply in_seq in Hk. lia.
+  rewrite ?nseq_unfold. intro H. apply in_map_iff in H. destruct H as [k [<- Hk]]. apply in_seq in Hk. lia.
 Qed.
 
 Section HintsInv.
@@ -155,7 +155,7 @@ Proof.
   - intros j Hj. apply gen_rank_ok; assumption.
   - exact Hnb.
   - intros i Hi. apply nseq_lt, Hi.
-  - unfold SELECT_ONES_PER_HINT. cbn [snd]. unfold nseq, lenN. rewrite map_length, seq_length. lia.
+  - unfold SELECT_ONES_PER_HINT. cbn [snd]. unfold lenN. rewrite ?nseq_unfold. rewrite map_length, seq_length. lia.
 Qed.
 
 (* the window given to the bisection *)
